@@ -82,4 +82,14 @@ PROPS = {
         "trusted_base": BASE_TRUST + ["re-reading equality of header/format/layout and decodability of every surface are implementation-only oracles of this check (header model: C09; pixel content: C03-C05, C12)"],
         "assumptions": ["12 input colour formats x quality x dithering x metric are exercised by C12/C13/C15, not here: this check feeds RGBA_U8 at quality Fast"],
     },
+    "C14": {
+        "kernel_sample": 300,
+        "rule": "SplitView geometry: 59 encodable formats (12 BC formats weighted 16x) x 4 qualities x 4 dithering modes x seeded sizes around the fragment thresholds 64..4096 px "
+                "(just above/below, widths wider than a fragment, heights not multiples of the split height, tall 1..9-px-wide images, powers of two); observed: fragment count, single(), first row and height of sampled fragments; "
+                "implementation-only oracles: all fragments consecutive, non-empty, covering the image; bytes of parallel encoding under rayon pools of 1,2,3,4,7,16 threads with hook-imposed completion orders "
+                "(natural, reversed, random delays, odd/even) == sequential bytes == concatenation of the encoded fragments; distinct = distinct case lines",
+        "trusted_base": BASE_TRUST + ["preferred fragment size per (format, quality) is observed through SplitView on a 1 x (2^22+8) image and regenerated every run (gen/GenFormats.v frag_table)",
+                                      "rayon indexed collect preserves order; worker threads share no hidden state - exercised, not proved"],
+        "assumptions": ["the picked encoder of a splittable format is local to groups of split-height rows: BC block rows (4) and dithering-free uncompressed rows (1) - exercised by the byte comparison, not proved"],
+    },
 }
